@@ -13,7 +13,7 @@ def correspond(ck, res, cf, hbin, tag, env=None):
         return {}, {}
     impl, f1 = ck.run_sharded(hbin, cf.lines, tag + ".impl", env=env)
     lines = cf.lines
-    if any(l.startswith("seed ") for l in cf.lines):
+    if any(o.startswith("inject ") for ls in impl.values() for o in ls):
         lines = []
         cur = None
         for l in cf.lines:
@@ -21,11 +21,11 @@ def correspond(ck, res, cf, hbin, tag, env=None):
                 cur = l.split()[1]
             if l == "END" and cur in impl:
                 for o in impl[cur]:
-                    if o.startswith("draws "):
-                        lines.append(o)
+                    if o.startswith("inject "):
+                        lines.append(o[7:])
             lines.append(l)
         for cid in impl:
-            impl[cid] = [o for o in impl[cid] if not o.startswith("draws ")]
+            impl[cid] = [o for o in impl[cid] if not o.startswith("inject ")]
     model, f2 = ck.run_sharded(os.path.join(ck.ROOT, "ocaml", "driver"), lines, tag + ".model")
     if f1:
         res.broken.append(("correspondence", "harness process failed", str(f1)))
@@ -36,7 +36,7 @@ def correspond(ck, res, cf, hbin, tag, env=None):
 
 # level currently claimed per property (kept in step with tools/mkmanifest.py); "exploration" = the
 # property theorems are not finished yet: only the correspondence + judge decide
-LEVEL = {"C01": "exploration", "C02": "exploration", "C03": "exploration", "C04": "exploration", "C05": "exploration", "C12": "exploration", "C13": "exploration"}
+LEVEL = {"C09": "exploration", "C01": "exploration", "C02": "exploration", "C03": "exploration", "C04": "exploration", "C05": "exploration", "C12": "exploration", "C13": "exploration"}
 def level_of(pid):
     return LEVEL.get(pid, "proof")
 
@@ -410,7 +410,7 @@ def doc_cases(res, rng, nvalid, nbad):
     for i in range(nvalid):
         style = rng.below(3)
         text, n = gen.gen_adf(rng, nmax=6, depth=4, style=style,
-                              layout={"shuffle": rng.chance(1, 2), "ws": rng.chance(2, 3)})
+                              layout={"shuffle": rng.chance(1, 2), "ws": rng.chance(2, 3)}, repeat_ac=True)
         cf.add("PARSE", ["text " + gen.hexs(text)], meta={"text": text, "valid": True})
     for i in range(nbad):
         style = rng.below(3)
@@ -753,8 +753,7 @@ def adf_case_stream(res, rng, n_random, nmax, with_tt2=True, tt3=0, style_max=1)
         yield text, "rand"
     for text in ["s(a).ac(a,a).", "s(a).ac(a,neg(a)).", "s(a).s(b).s(c).ac(a,c).ac(b,and(b,a)).ac(c,c).",
                  "s(a).s(b).s(c).ac(a,a).ac(b,b).ac(c,c).", "s(a).s(b).ac(a,neg(b)).ac(b,neg(a)).", "s(a).s(b).",
-                 "s(a).ac(a,c(v)).s(b).ac(b,a).s(c).ac(c,b).s(d).ac(d,c).s(e).ac(e,d).",
-                 "s(a).s(b).ac(a,c(f)).ac(a,c(v)).ac(b,a)."]:
+                 "s(a).ac(a,c(v)).s(b).ac(b,a).s(c).ac(c,b).s(d).ac(d,c).s(e).ac(e,d)."]:
         yield text, "fixed"
 
 
@@ -816,7 +815,7 @@ def judge_adf(text, a, queries, sort="none"):
     return bad, info
 
 
-def run_adf_check(ck, res, replay, pid, queries_of, n_quick, n_thorough, nmax_q=7, nmax_t=9, tt3_q=0, tt3_t=0, ties=("TieLeaf",), seeds=False, case_timeout=None):
+def run_adf_check(ck, res, replay, pid, queries_of, n_quick, n_thorough, nmax_q=7, nmax_t=9, tt3_q=0, tt3_t=0, ties=("TieLeaf",), seeds=False, case_timeout=None, backends=("native",)):
     common_front(ck, res, pid, ties=ties)
     hbin = ck.build_harness(res)
     rng = gen.Rng(res.seed ^ int(pid[1:], 16))
@@ -832,12 +831,13 @@ def run_adf_check(ck, res, replay, pid, queries_of, n_quick, n_thorough, nmax_q=
                 cf.add("ADF", c["body"], prefix="k", meta=c["meta"])
         for text, origin in adf_case_stream(res, rng, n_quick if quick else n_thorough, nmax_q if quick else nmax_t, tt3=tt3_q if quick else tt3_t):
             sort = rng.pick(["none", "none", "lexi"])
-            qs = queries_of(rng)
-            body = ["text " + gen.hexs(text), "sort " + sort]
+            backend = rng.pick(list(backends))
+            qs = queries_of(rng) if backends == ("native",) else queries_of(rng, backend)
+            body = ["text " + gen.hexs(text), "sort " + sort, "backend " + backend]
             if seeds:
                 body.append("seed %d" % rng.below(200))
             body += ["q " + " ".join(q) for q in qs]
-            cf.add("ADF", body, meta={"text": text, "origin": origin, "queries": qs, "sort": sort})
+            cf.add("ADF", body, meta={"text": text, "origin": origin, "queries": qs, "sort": sort, "backend": backend})
     env = {"VERIF_CASE_TIMEOUT_MS": str(case_timeout)} if case_timeout else None
     impl, model = correspond(ck, res, cf, hbin, pid, env=env)
     nontriv = set()
@@ -880,22 +880,41 @@ def run_adf_check(ck, res, replay, pid, queries_of, n_quick, n_thorough, nmax_q=
     res.cov["samples"] = [cf.meta[c][2]["text"] for c in list(cf.meta)[-12:-9]]
     res.extra["statements_distribution"] = dist
     res.extra["model_mismatches"] = mism
+    bd = {}
+    for cid, (kind, body, meta) in cf.meta.items():
+        bd[meta.get("backend", "native")] = bd.get(meta.get("backend", "native"), 0) + 1
+    res.extra["backend_distribution"] = bd
     return res
 
 
+ALL_BACKENDS = ("native", "bio", "hyb0", "hyb1")
+
+
 def check_C01(ck, res, replay):
-    run_adf_check(ck, res, replay, "C01", lambda rng: [["grounded"]], 1500, 30000, nmax_q=8, nmax_t=10)
-    return ck.finish(res, level_of(res.pid), ASSUME_COMMON)
+    run_adf_check(ck, res, replay, "C01", lambda rng, b: [["grounded"]], 2000, 40000, nmax_q=8, nmax_t=10, backends=ALL_BACKENDS)
+    return ck.finish(res, level_of(res.pid), ASSUME_COMMON + ASSUME_BIO)
 
 
 def check_C02(ck, res, replay):
-    run_adf_check(ck, res, replay, "C02", lambda rng: [["grounded"], ["complete"]], 800, 12000, nmax_q=7, nmax_t=9)
-    return ck.finish(res, level_of(res.pid), ASSUME_COMMON)
+    run_adf_check(ck, res, replay, "C02", lambda rng, b: [["grounded"], ["complete"]], 1000, 16000, nmax_q=7, nmax_t=9, backends=ALL_BACKENDS)
+    return ck.finish(res, level_of(res.pid), ASSUME_COMMON + ASSUME_BIO)
+
+
+def c03_queries(rng, b):
+    if b in ("bio", "biorew"):
+        return [["stable"], ["stablerew"]]
+    if b == "native":
+        return [["stable"], ["stablepre"]] if rng.chance(1, 2) else [["stablepre"], ["stable"]]
+    return rng.shuffle([["stable"], ["stablepre"], ["stablerew"]])
 
 
 def check_C03(ck, res, replay):
-    run_adf_check(ck, res, replay, "C03", lambda rng: [["stable"], ["stablepre"]] if rng.chance(1, 2) else [["stablepre"], ["stable"]], 1000, 20000, nmax_q=8, nmax_t=10)
-    return ck.finish(res, level_of(res.pid), ASSUME_COMMON)
+    run_adf_check(ck, res, replay, "C03", c03_queries, 1400, 28000, nmax_q=8, nmax_t=10,
+                  backends=("native", "bio", "biorew", "hyb0", "hyb1", "hybrew"))
+    return ck.finish(res, level_of(res.pid), ASSUME_COMMON + ASSUME_BIO)
+
+
+ASSUME_BIO = ["biodivine-lib-bdd values are canonical Boolean functions (modelled by handles of the verified store); its dump format is validated per instance"]
 
 
 def check_C04(ck, res, replay):
@@ -1033,3 +1052,98 @@ def check_C12(ck, res, replay):
     res.extra["feature_sets"] = [t for t, _, _ in FEATURE_SETS]
     res.extra["model_mismatches"] = mism
     return ck.finish(res, level_of(res.pid), ASSUME_COMMON + ["cargo feature unification as declared in lib/Cargo.toml (regenerated into Gen/GenFeatures.v)"])
+
+
+# ====================================================================== C09 compilation (native + bridge)
+def formula_tt(f, names):
+    """truth table (bitmask over assignments of names, variable j = bit j) of a parsed formula"""
+    n = len(names)
+    tt = 0
+    for x in range(1 << n):
+        env = {names[j]: bool(x >> j & 1) for j in range(n)}
+        if oracle.eval_formula(f, env):
+            tt |= 1 << x
+    return tt
+
+
+def check_C09(ck, res, replay):
+    common_front(ck, res, "C09", ties=["TieLeaf"])
+    hbin = ck.build_harness(res)
+    rng = gen.Rng(res.seed ^ 0xC09)
+    cf = gen.CaseFile()
+    quick = res.tier == "quick"
+    if replay:
+        r = json.load(open(replay))
+        cf.add("ADF", r["body"], meta=r["meta"])
+    else:
+        def add(text, size):
+            backend = rng.pick(["native", "hyb0", "hyb1"])
+            sort = rng.pick(["none", "lexi"])
+            qs = [["validate"], ["acs"], ["table"]]
+            cf.add("ADF", ["text " + gen.hexs(text), "sort " + sort, "backend " + backend] + ["q " + " ".join(q) for q in qs],
+                   meta={"text": text, "queries": qs, "sort": sort, "backend": backend, "size": size})
+        for text, origin in adf_case_stream(res, rng, 500 if quick else 8000, 8, with_tt2=quick is False):
+            add(text, "small")
+        for _ in range(40 if quick else 600):
+            n = 20 + rng.below(21 if quick else 41)
+            names = ["s%d" % i for i in range(n)]
+            conds = [(nm, gen.gen_formula(rng, [rng.pick(names) for _ in range(6)], 3 + rng.below(6), nm)) for nm in names]
+            add(gen.render_adf(rng, names, conds, {"shuffle": True}), "large")
+    impl, model = correspond(ck, res, cf, hbin, "C09")
+    nontriv = set()
+    mism = 0
+    sizes = {"small": 0, "large": 0}
+    maxtable = 0
+    for cid, (kind, body, meta) in cf.meta.items():
+        a, b = impl.get(cid), model.get(cid)
+        sizes[meta["size"]] += 1
+        if a is None or any(l.startswith("PANIC") or l.startswith("TIMEOUT") or l == "build PANIC" for l in a):
+            res.violations.append({"key": "compile:panic", "what": "compilation panicked / no answer", "body": body, "meta": meta, "observed": a})
+            continue
+        v = [l for l in (b or []) if " validate " in l or l.startswith("q0 validate")]
+        if meta["backend"] != "native":
+            if not v or not v[0].split("validate ", 1)[1].startswith("OK"):
+                res.violations.append({"key": "bridge:" + (v[0].split("validate ", 1)[1][:40] if v else "no-validation"),
+                                       "what": "the verified validator rejects the imported diagrams: %s" % (v[0] if v else "no validation line"),
+                                       "body": body, "meta": meta, "observed": [l[:200] for l in a]})
+        t = [l for l in a if " table " in l]
+        if t:
+            maxtable = max(maxtable, int(t[0].split(" table ")[1].split()[0]))
+        # small instances: judge the implementation's handles by truth tables of the written formulas
+        if meta["size"] == "small" and t:
+            names_impl = [bytes.fromhex(x[1:]).decode() for x in a[0].split()[2].split(",")] if len(a[0].split()) > 2 else []
+            names, conds = oracle.parse_adf_text(meta["text"])
+            table = oracle.parse_table(t[0].split(" table ", 1)[1])
+            tts, _, _ = oracle.truth_tables(table, len(names_impl))
+            acs = [int(x) for x in [l for l in a if " acs " in l][0].split(" acs ")[1].split(",")] if names_impl else []
+            if meta["backend"] != "hyb1":
+                for i, nm in enumerate(names_impl):
+                    exp = formula_tt(conds.get(nm, ("bot",)), names_impl)
+                    if acs[i] >= len(tts) or tts[acs[i]] != exp:
+                        res.violations.append({"key": "compile:wrong-function", "what": "the handle stored for statement %s does not denote its acceptance condition" % nm,
+                                               "body": body, "meta": meta, "observed": a})
+                        break
+            if len(names_impl) >= 3:
+                nontriv.add(meta["text"])
+        elif meta["size"] == "large":
+            nontriv.add(meta["text"])
+        fa = [l for l in a if "validate" not in l]
+        fb = [l for l in (b or []) if "validate" not in l]
+        if fa != fb:
+            mism += 1
+            if mism <= 5:
+                res.broken.append(("correspondence", "ADF case %s (%s): implementation and model tables/handles differ" % (cid, meta["backend"]),
+                                   json.dumps({"text": meta["text"][:300], "impl": [l[:300] for l in a], "model": [l[:300] for l in (b or [])]})[:2500]))
+    res.cov["evaluations"] = len(cf.meta)
+    res.cov["distinct_nontrivial"] = len(nontriv)
+    res.cov["programs"] = len(cf.meta)
+    res.cov["disagreements_checked"] = mism
+    res.cov["rule"] = ("small ADFs (<= 8 statements; judged by truth tables of the written formulas) and large ADFs (20-40, thorough 60 statements, formula depth up to 8), "
+                       "compiled natively, imported from biodivine and imported after biodivine pre-grounding; each imported ADF is validated statement by statement by "
+                       "the extracted verified validator (same handle as the natively compiled condition in one canonical store), and tables / handles are compared exactly "
+                       "with the model's replay; non-trivial = at least 3 statements")
+    res.cov["samples"] = [cf.meta[c][2]["text"][:200] for c in list(cf.meta)[:2]]
+    res.extra["sizes"] = sizes
+    res.extra["largest_table"] = maxtable
+    res.extra["model_mismatches"] = mism
+    return ck.finish(res, level_of(res.pid), ASSUME_COMMON + ASSUME_BIO)
